@@ -111,6 +111,92 @@ def known_match(ctx, shape):
             return k.get('id')
     return None
 
+# ---------------------------------------------------------------- node-level tree (Mast.v)
+def _sval_len(toks, i):
+    return 1 if toks[i] == 'N' else 2
+
+def mast_impl_answers(case, impl):
+    """what the implementation answered to every Delete / Get / forward scan of a `mast` case, in the
+    format of the oracle's specification view; None when the history ended in a panic"""
+    t = case.split()[2:]
+    a = impl.split()[1:]
+    nops = int(t[1]); i = 3; j = 0; res = []
+    for _ in range(nops):
+        op = t[i]; i += 1
+        if op == 'X':
+            continue
+        if op == 'I':
+            i += _sval_len(t, i) + 1
+            if a[j] != 'ok': return None
+            j += 3
+        elif op == 'D':
+            i += _sval_len(t, i)
+            if a[j] == 'P': return None
+            res.append(a[j]); j += 3
+        elif op == 'G':
+            i += _sval_len(t, i)
+            if a[j] == 'S': res.append('S' + a[j + 1]); j += 4
+            elif a[j] == '_': res.append('_'); j += 3
+            else: res.append(a[j]); j += 3
+        elif op in ('F', 'L'):
+            if a[j].startswith('E'): return None
+            j += 3
+        elif op in ('SF', 'SC', 'SB'):
+            if op == 'SC': i += _sval_len(t, i)
+            if a[j] in ('P', 'E'):
+                if op != 'SB': res.append(a[j])
+                if a[j] == 'P' and op != 'SB': return res
+                j += 3
+                continue
+            n = int(a[j]); items = a[j + 1:j + 1 + n]; st = a[j + 1 + n]
+            if op != 'SB':
+                res.append(','.join(items) + ';' + ('' if st == 'ok' else st))
+            j += n + 4
+    return res
+
+def mast_suite(quick=300, thorough=12000):
+    def f(ctx):
+        res = Result('mast', 'node-level tree: histories of Insert / Delete / Get / flush / reload / forward, ceiling and backward scans '
+                     'on github.com/jrhy/mast configured as s3db configures it (keys compared by Key.Order, placed by Key.Layer, the '
+                     'repository\'s node codec; branch factors 2-16, INTEGER / REAL / TEXT / BLOB keys) against the Coq model Mast.v: '
+                     'status, height and size after every operation, the LAYOUT of the stored tree (which key in which node, absent '
+                     'links) at every flush, every scan result; specification view = the sorted association list of Tree.v; '
+                     'non-trivial = the tree reached two levels or more')
+        outdir = os.path.join(ctx.out, f'mast-{ctx.prop}')
+        n = ctx.n(quick, thorough)
+        r = harness(ctx, 'mast', ctx.seed_for('mast'), n, outdir, '', corpus='mast')
+        if r.returncode != 0:
+            harness_failed(res, r)
+            return res
+        cases = open(f'{outdir}/cases.txt').read().splitlines()
+        impl = open(f'{outdir}/impl.txt').read().splitlines()
+        model = open(f'{outdir}/model.txt').read().splitlines()
+        for k, c in enumerate(cases):
+            res.evaluations += 1
+            a = impl[k] if k < len(impl) else '<missing>'
+            mline, spec = split_spec(model[k] if k < len(model) else '<missing>')
+            if re.search(r' h[1-9]', a):
+                res.nontrivial += 1
+            if a.split() != mline.split():
+                res.mismatches.append(dict(suite=res.name, case=c[:3000], impl=a[:3000], model=mline[:3000]))
+            if spec is not None:
+                try:
+                    got = mast_impl_answers(c, a)
+                except Exception as e:
+                    got = None
+                    res.mismatches.append(dict(suite=res.name, case=c[:3000], impl=a[:1000], model='monitor could not parse: %r' % (e,)))
+                if got is not None and got != spec:
+                    d = next((x for x in range(min(len(got), len(spec))) if got[x] != spec[x]), min(len(got), len(spec)))
+                    res.property_failures.append(dict(suite=res.name, case=c[:3000],
+                        what='a tree of several levels answers a lookup, a delete or an ascending scan differently from the map it stores '
+                             f'(answer #{d}: got {got[d] if d < len(got) else "<none>"}, the entries written say {spec[d] if d < len(spec) else "<none>"})',
+                        impl=a[:3000], spec=' '.join(spec)[:3000]))
+            if len(res.samples) < 2 and k % 41 == 7:
+                res.samples.append(dict(case=c[:400], impl=a[:400]))
+        res.stats = read_stats(outdir)
+        return res
+    return f
+
 # ---------------------------------------------------------------- L0
 def l0_suite(funcs, quick=1500, thorough=40000, monitor=None, nontrivial_keys=None):
     def f(ctx):
@@ -1005,7 +1091,7 @@ def c02_monitor(ctx, res, case, impl_line, model_line, spec):
         else:
             res.property_failures.append(m)
 
-register('C06', [l2_suite('single')],
+register('C06', [l2_suite('single'), mast_suite()],
          ['SQLite re-checks every constraint on rows returned by the cursor (no constraint is marked omit)',
           'write times set explicitly and non-decreasing', 'TEXT values are valid UTF-8'])
 register('C08', [l2_suite('single'), l0_suite(['merge_rows', 'merge_values'], monitor=c08_merge_monitor),
@@ -1319,7 +1405,7 @@ register('C11', [l2_suite('changes', native=False, name='l2-changes', determined
                  lambda ctx: l2_suite('faults', name='l2-faults', quick=80, thorough=1500,
                                       determined='after a failed statement or COMMIT the rows a connection sees are not the rows of the versions it reports')(ctx),
                  l1_suite(['rows', 'plain'], monitor=chain(mutation_order_monitor, determined_result_monitor('an open restricted to recorded versions (or a later read) returns other entries than those versions hold')))], [])
-register('C16', [l2_suite('multi', native=False, extra_monitor=c02_monitor, name='l2-multi'), l0_suite(['nodecodec']), l1_suite(['rows']),
+register('C16', [l2_suite('multi', native=False, extra_monitor=c02_monitor, name='l2-multi'), l0_suite(['nodecodec']), l1_suite(['rows']), mast_suite(),
                  l2_suite('vacuum', native=False, extra_monitor=c09_monitor, name='l2-vacuum', quick=40, thorough=1000),
                  l2_suite('faults', name='l2-faults', quick=80, thorough=1500,
                           determined='a fresh reader does not read exactly what the acknowledged commits wrote'),
